@@ -6,6 +6,7 @@
 // specific error codes.
 #include "gen.hpp"
 #include "parse_common.hpp"
+#include "pathenum.hpp"
 
 using namespace vf;
 
@@ -146,4 +147,16 @@ static Verdict check(const Fields &f) {
   return Verdict::pass();
 }
 
-const Harness vf::HARNESS = {"C10", gen, check, nullptr, nullptr};
+// every (source, base) pair of the bounded domain of absolute URIs, both modes
+static Verdict enumerate(int tier, int shard, int nshards, Fields *failing) {
+  static PathDomain d = path_domain(tier);
+  uint64_t n = d.abss.size();
+  return enum_drive(n * n * 2, shard, nshards, check, [&](uint64_t i) {
+    Fields f;
+    f.set("src", d.abss[(size_t)(i / 2 / n)]); f.set("base", d.abss[(size_t)(i / 2 % n)]);
+    f.seti("mode", (long long)(i & 1)); f.seti("mm", (long long)((i >> 1) & 1)); f.seti("klass", 10); f.seti("fault", 0);
+    return f;
+  }, failing);
+}
+
+const Harness vf::HARNESS = {"C10", gen, check, enumerate, nullptr};
